@@ -18,12 +18,18 @@ namespace ImathVerif.Dispatch
 /-- One flat address space; every FixedArray buffer is a base address in it. -/
 abbrev Addr := Nat
 
-/-- The heap: contents of every cell. -/
-abbrev Heap (α : Type) := Addr → α
+/-- The heap: contents of every cell.  (A structure rather than a bare function type, so that the
+    compiled driver evaluates a written value once, when the cell is written: a definition returning a
+    bare function is eta-expanded by the compiler and would recompute the value on every read.) -/
+structure Heap (α : Type) where
+  get : Addr → α
 
 /-- `ptr[a] = v` -/
 def Heap.write {α : Type} (h : Heap α) (a : Addr) (v : α) : Heap α :=
-  fun x => if x = a then v else h x
+  ⟨fun x => if x = a then v else h.get x⟩
+
+theorem Heap.ext' {α : Type} {h h' : Heap α} (e : ∀ x, h.get x = h'.get x) : h = h' := by
+  cases h; cases h'; congr; funext x; exact e x
 
 /-! ## Accessors (PyImathFixedArray.h:731-823) -/
 
@@ -59,7 +65,7 @@ inductive Arg (α : Type) where
   | const (v : α)
 
 def Arg.read {α : Type} : Arg α → Heap α → Nat → α
-  | .arr a, h, i => h (a.loc i)
+  | .arr a, h, i => h.get (a.loc i)
   | .const v, _, _ => v
 
 /-- cells read by `arg[i]` -/
@@ -193,9 +199,9 @@ instance (len : Nat) (w : Nat → Addr) (r : Nat → List Addr) : Decidable (NoC
 /-- element-wise specification: cell `w i` (`i < len`) holds what iteration `i`
     computes from the ORIGINAL heap, every other cell is unchanged: `map op`. -/
 def elementwise {α : Type} (step : Nat → Heap α → Heap α) (w : Nat → Addr) (len : Nat) (h : Heap α) : Heap α :=
-  fun x => match (List.range len).find? (fun i => w i = x) with
-    | some i => step i h x
-    | none => h x
+  ⟨fun x => match (List.range len).find? (fun i => w i = x) with
+    | some i => (step i h).get x
+    | none => h.get x⟩
 
 /-! ## Argument measurement (PyImathAutovectorize.h:143-233, PyImathFixedArray.h:685-708) -/
 
